@@ -10,6 +10,7 @@ CONSTANTS
   BugH9 = FALSE
   BugH10 = TRUE
   BugMetaStale = TRUE
+  BugH11 = FALSE
   KRounds = 12
-INVARIANTS TraceNotStuck C09Strict
+INVARIANTS TraceNotStuck C09StrictT
 CHECK_DEADLOCK FALSE
